@@ -681,6 +681,10 @@ def str_concat(eng, parts):
 
 
 def str_format(eng, fmt, args, kwargs):
+    if not is_sym(fmt):
+        r = _format_fields(eng, fmt, args, kwargs)
+        if r is not None:
+            return r
     if not is_sym(fmt) and all(_plain(a) for a in args) and all(_plain(a) for a in kwargs.values()):
         try:
             return fmt.format(*args, **kwargs)
@@ -698,6 +702,55 @@ def str_format(eng, fmt, args, kwargs):
             return str_concat(eng, out)
     eng.abstraction("str.format with non-scalar or symbolic arguments is an uninterpreted string")
     return eng.fresh_str("fmt")
+
+
+def _format_fields(eng, fmt, args, kwargs):
+    """str.format on a concrete format string whose fields are plain `{}` / `{name}` /
+    `{0.attr}` / `{name.attr[0]}` with spec '' or 's' and string-valued results: exact"""
+    import string
+    import re
+    out, auto = [], 0
+    try:
+        parsed = list(string.Formatter().parse(fmt))
+    except ValueError:
+        return None
+    for lit, field, spec, conv in parsed:
+        if lit:
+            out.append(lit)
+        if field is None:
+            continue
+        if conv is not None or spec not in ("", "s"):
+            return None
+        m = re.match(r"^([A-Za-z_0-9]*)(.*)$", field)
+        head, rest = m.group(1), m.group(2)
+        if head == "":
+            if auto >= len(args):
+                raise _exc(eng, "IndexError", "format index")
+            v = args[auto]
+            auto += 1
+        elif head.isdigit():
+            if int(head) >= len(args):
+                raise _exc(eng, "IndexError", "format index")
+            v = args[int(head)]
+        else:
+            if head not in kwargs:
+                raise _exc(eng, "KeyError", head)
+            v = kwargs[head]
+        for acc in re.findall(r"\.[A-Za-z_][A-Za-z_0-9]*|\[[^\]]+\]", rest):
+            if acc.startswith("."):
+                v = eng.getattr(v, acc[1:])
+            else:
+                k = acc[1:-1]
+                v = getitem(eng, v, int(k) if k.lstrip("-").isdigit() else k)
+        if kind(v) == "str":
+            out.append(v)
+        elif spec == "" and kind(v) in ("int",):
+            out.append(to_str(eng, v))
+        elif spec == "" and not is_sym(v) and isinstance(v, (float, bool, type(None))):
+            out.append(str(v))
+        else:
+            return None
+    return str_concat(eng, out)
 
 
 def str_format_percent(eng, fmt, arg):
